@@ -106,20 +106,20 @@ TEMPLATES = [
     {"cls": "type", "t": "from [{a = 1, b = «x»}]"},
     {"cls": "type", "t": "from [{a = 1, b = 2}, {a = 3, b = «c»}]"},
     {"cls": "type", "t": "from t | «select {a}» | append (from u | select {a, b})"},
-    # new error sites that carry no span at all (7b31f75, f0c772e): only the reason can be checked
-    {"cls": "type", "t": "from t | window «rows:1..0» (derive {x1 = count a})", "nospan": True},
-    {"cls": "type", "t": "from t | window «range:3..1» (derive {x1 = count a})", "nospan": True},
-    {"cls": "type", "t": "from t | «remove (from u | select {a, b})»", "nospan": True},
+    # error sites of 7b31f75, f0c772e: they carry the span of the offending expression since 819c36b
+    {"cls": "type", "t": "from t | window rows:«1..0» (derive {x1 = count a})"},
+    {"cls": "type", "t": "from t | window range:«3..1» (derive {x1 = count a})"},
+    {"cls": "type", "t": "from t | «remove (from u | select {a, b})»"},
     # ---------------------------------------------------------------- one template per reachable Error::new_simple site
     # (the evidence lists, per site of the regenerated inventory, whether an error of that site was seen with a span)
     {"cls": "type", "t": "from t | window rows:«a»..2 (derive {x = sum b})"},
-    {"cls": "resolution", "t": "from t | join u («==1»)", "nospan": True},
-    {"cls": "resolution", "t": "from t | join u («==t.id»)", "nospan": True},
+    {"cls": "resolution", "t": "from t | join u (==«1»)"},
+    {"cls": "resolution", "t": "from t | join u (==«t.id»)"},
     {"cls": "resolution", "t": "let x = 1«»", "nospan": True},
     {"cls": "resolution", "t": "# nothing«»", "nospan": True},
     {"cls": "resolution", "t": "«prql version:\"^9\"\n»from t", "header": True, "nospan": True},
-    {"cls": "type", "t": "from [{a=1}] | «append [{a=1,b=2}]»", "nospan": True},
-    {"cls": "type", "t": "from t | take «foo:1» 2", "nospan": True},
+    {"cls": "type", "t": "from [{a=1}] | append «[{a=1,b=2}]»"},
+    {"cls": "type", "t": "from t | take foo:«1» 2"},
     {"cls": "type", "t": "from t | select {a, «t.*»} | intersect (from u | select {c})", "check_tok": False},
     {"cls": "type", "t": "from t | derive {x = s\"{«t»}\"}"},
     # error sites added by 1ae3488 (no span), e6f83f8 and 006e33c (both point at the offending text)
@@ -128,10 +128,15 @@ TEMPLATES = [
     {"cls": "type", "t": "from [{a = 1}, {a = 2}, «\"x\"»]"},
     {"cls": "type", "t": "from t | derive {x = «that»}"},
     {"cls": "type", "t": "from t | join u (==id) | derive {y = «that»}"},
+    # error sites of 19e2c2a (interval literal for a dialect without one: no span) and d86674e (JSON cell of from_text that
+    # cannot be represented: like every parse error of from_text it is reported at the `format` argument, not at the text)
+    {"cls": "sql", "t": "from t | derive {x = «3years»}", "target": "sql.sqlite", "nospan": True},
+    {"cls": "type", "t": "from_text format:«json» '[{\"a\": 18446744073709551615}]'"},
+    {"cls": "type", "t": "from_text format:«json» '[{\"a\": [1]}]'"},
     {"cls": "type", "t": "from t | group a («join u (==id)»)"},
     {"cls": "type", "t": "let f = func a -> «internal nope»\nfrom t | derive x = (f 1)"},
-    {"cls": "type", "t": "from t | select {a} | «append null»", "nospan": True},
-    {"cls": "sql", "t": "from t | take 9223372036854775807.. | «take 2..»", "nospan": True},
+    {"cls": "type", "t": "from t | select {a} | append «null»"},
+    {"cls": "sql", "t": "from t | take 9223372036854775807.. | take «2».."},
     {"cls": "sql", "t": "from «s\"SELEC * FROM t\"»", "nospan": True},
     {"cls": "sql", "t": "from t | «remove u»", "target": "sql.sqlite", "nospan": True},
     {"cls": "sql", "t": "from t | «intersect u»", "target": "sql.sqlite", "nospan": True},
